@@ -236,4 +236,173 @@ func (g *gen) payloads() {
 	}
 	g.p("Definition gen_reason_spam : bytes := hex \"%s\".\n", hexOf([]byte(v)))
 	_ = strconv.Itoa
+	g.saslerr()
+}
+
+// cmpOp encodes a comparison operator: 0 >=, 1 >, 2 <, 3 <=, 4 ==, 9 anything else.
+func cmpOp(t token.Token) int {
+	switch t {
+	case token.GEQ:
+		return 0
+	case token.GTR:
+		return 1
+	case token.LSS:
+		return 2
+	case token.LEQ:
+		return 3
+	case token.EQL:
+		return 4
+	}
+	return 9
+}
+
+// lenMinus recognises Condition(len(_Condition_index)-k) and returns k (99 otherwise).
+func lenMinus(e ast.Expr) int {
+	call, is := e.(*ast.CallExpr)
+	if !is || len(call.Args) != 1 {
+		return 99
+	}
+	be, is := call.Args[0].(*ast.BinaryExpr)
+	if !is || be.Op != token.SUB {
+		return 99
+	}
+	lc, is := be.X.(*ast.CallExpr)
+	if !is || callName(lc) != "len" || len(lc.Args) != 1 {
+		return 99
+	}
+	if id, is := lc.Args[0].(*ast.Ident); !is || id.Name != "_Condition_index" {
+		return 99
+	}
+	bl, is := be.Y.(*ast.BasicLit)
+	if !is {
+		return 99
+	}
+	k, err := strconv.Atoi(bl.Value)
+	if err != nil {
+		return 99
+	}
+	return k
+}
+
+// saslerr: the condition names (stringer comments, value = position), the
+// length of the stringer index, and the range checks of Condition.TokenReader,
+// Condition.String and the loop of Condition.UnmarshalXML.
+func (g *gen) saslerr() {
+	g.p("\n(* ---- internal/saslerr ---- *)\n")
+	ef := safeParse(g, "internal/saslerr/errors.go")
+	sf := safeParse(g, "internal/saslerr/condition_string.go")
+	g.p("Definition gen_sasl_conditions : list bytes := [")
+	if ef != nil {
+		first := true
+		for _, d := range ef.Decls {
+			gd, is := d.(*ast.GenDecl)
+			if !is || gd.Tok != token.CONST {
+				continue
+			}
+			for _, sp := range gd.Specs {
+				vs := sp.(*ast.ValueSpec)
+				if vs.Comment == nil {
+					continue
+				}
+				if !first {
+					g.p("; ")
+				}
+				first = false
+				g.p("hex \"%s\"", hexOf([]byte(strings.TrimSpace(vs.Comment.Text()))))
+			}
+		}
+	}
+	g.p("].\n")
+	idxLen := 0
+	if sf != nil {
+		ast.Inspect(sf, func(n ast.Node) bool {
+			vs, is := n.(*ast.ValueSpec)
+			if !is || len(vs.Names) != 1 || vs.Names[0].Name != "_Condition_index" || len(vs.Values) != 1 {
+				return true
+			}
+			if cl, is := vs.Values[0].(*ast.CompositeLit); is {
+				idxLen = len(cl.Elts)
+			}
+			return true
+		})
+	}
+	g.p("Definition gen_sasl_index_len : N := %d%%N.\n", idxLen)
+	ns, ok := anyConstString(safeParse(g, "internal/ns/ns.go"), "SASL")
+	if !ok {
+		ns = "\x00missing ns.SASL"
+	}
+	g.p("Definition gen_sasl_ns : bytes := hex \"%s\".\n", hexOf([]byte(ns)))
+
+	// TokenReader: if c == ConditionNone || c OP Condition(len(_Condition_index)-K) { nothing }
+	noneExcluded, op, k := false, 9, 99
+	if ef != nil {
+		if fd := methodOf(ef, "Condition", "TokenReader"); fd != nil && fd.Body != nil && len(fd.Body.List) > 0 {
+			if ifs, is := fd.Body.List[0].(*ast.IfStmt); is {
+				if or, is := ifs.Cond.(*ast.BinaryExpr); is && or.Op == token.LOR {
+					if l, is := or.X.(*ast.BinaryExpr); is && l.Op == token.EQL {
+						if id, is := l.Y.(*ast.Ident); is && id.Name == "ConditionNone" {
+							noneExcluded = true
+						}
+					}
+					if r, is := or.Y.(*ast.BinaryExpr); is {
+						op, k = cmpOp(r.Op), lenMinus(r.Y)
+					}
+				}
+			}
+		}
+	}
+	g.p("(* (ConditionNone writes nothing, operator of the upper check: 0 >= 1 > 2 < 3 <= 4 ==, k of len(index)-k) *)\n")
+	g.p("Definition gen_sasl_tr_check : bool * N * N := (%v, %d, %d)%%N.\n", noneExcluded, op, k)
+
+	sop, sk := 9, 99
+	if sf != nil {
+		if fd := methodOf(sf, "Condition", "String"); fd != nil && fd.Body != nil && len(fd.Body.List) > 0 {
+			if ifs, is := fd.Body.List[0].(*ast.IfStmt); is {
+				if c, is := ifs.Cond.(*ast.BinaryExpr); is {
+					sop, sk = cmpOp(c.Op), lenMinus(c.Y)
+				}
+			}
+		}
+	}
+	g.p("Definition gen_sasl_string_check : N * N := (%d, %d)%%N.\n", sop, sk)
+
+	// UnmarshalXML: for cond := Condition(START); cond OP Condition(len(_Condition_index)-K); cond++
+	start, lop, lk := 99, 9, 99
+	if ef != nil {
+		if fd := methodOf(ef, "Condition", "UnmarshalXML"); fd != nil && fd.Body != nil && len(fd.Body.List) > 0 {
+			if fs, is := fd.Body.List[0].(*ast.ForStmt); is {
+				if as, is := fs.Init.(*ast.AssignStmt); is && len(as.Rhs) == 1 {
+					if call, is := as.Rhs[0].(*ast.CallExpr); is && len(call.Args) == 1 {
+						if bl, is := call.Args[0].(*ast.BasicLit); is {
+							if v, err := strconv.Atoi(bl.Value); err == nil {
+								start = v
+							}
+						}
+					}
+				}
+				if c, is := fs.Cond.(*ast.BinaryExpr); is {
+					lop, lk = cmpOp(c.Op), lenMinus(c.Y)
+				}
+			}
+		}
+	}
+	g.p("Definition gen_sasl_un_loop : N * N * N := (%d, %d, %d)%%N.\n", start, lop, lk)
+}
+
+// methodOf finds the method name of receiver type recv (value or pointer).
+func methodOf(f *ast.File, recv, name string) *ast.FuncDecl {
+	for _, d := range f.Decls {
+		fd, is := d.(*ast.FuncDecl)
+		if !is || fd.Name.Name != name || fd.Recv == nil || len(fd.Recv.List) != 1 {
+			continue
+		}
+		t := fd.Recv.List[0].Type
+		if st, is := t.(*ast.StarExpr); is {
+			t = st.X
+		}
+		if id, is := t.(*ast.Ident); is && id.Name == recv {
+			return fd
+		}
+	}
+	return nil
 }
